@@ -542,9 +542,9 @@ def _single_char_matches(pat):
 
         yes = [chr(c) for c in range(_sys.maxunicode + 1) if not (0xD800 <= c <= 0xDFFF) and pat.match(chr(c)) is not None]
         total = _sys.maxunicode + 1 - 0x800
-        if len(yes) <= 256:
+        if len(yes) <= 4096:
             res = (yes, None, pat.match("") is not None)
-        elif total - len(yes) <= 256:
+        elif total - len(yes) <= 4096:
             ys = set(yes)
             res = (None, [chr(c) for c in range(_sys.maxunicode + 1) if not (0xD800 <= c <= 0xDFFF) and chr(c) not in ys], pat.match("") is not None)
         else:
